@@ -503,5 +503,13 @@ def js_escape(prog: Program) -> RuleResult:
     return r
 
 
+def js_registry(prog: Program) -> RuleResult:
+    from .c18 import registry_exact
+
+    r = RuleResult("JS-REGISTRY", "a class is deserialisable through the registry only if exactly that class was registered", floor=3)
+    registry_exact(prog, r)
+    return r
+
+
 def run(prog: Program, tier: str) -> List[RuleResult]:
-    return [js_escape(prog)]
+    return [js_escape(prog), js_registry(prog)]
